@@ -91,8 +91,27 @@ def run_convert(ctx, found_on_panic=True, extra=""):
     kv = sorted(f for f in files if f.endswith(".v"))
     bad, _ = run_ocaml_shards(ml, CONVERT_WHAT, "convert")
     kbad, _, _ = run_kernel_shards(kv, CONVERT_WHAT)
+    # snapshot blocks (proto_snapshot_block_to_token_block): same unit, checker sv_failures
+    sml = sorted(f for f in files if "/SV_ml_" in f)
+    sbad, _ = run_ocaml_shards(sml, CONVERT_WHAT + " (snapshot blocks)", "convert")
+    slines = case_lines(outdir, "SV")
+    sinfo = _info(outdir, "SV")
+    for i in summ.get("snapshot_panics", [])[:5]:
+        ctx.violation({"family": CONVERT_WHAT, "case_index": i, "info": sinfo[i][:4000] if i < len(sinfo) else None,
+                       "violated_clause": "proto_snapshot_block_to_token_block panicked on a decoded snapshot block"}, found_on_panic)
+    for n, i in enumerate(sbad):
+        if n >= 4:
+            break
+        case_text = slines[i] if i < len(slines) else "?"
+        model_text = kernel_eval("Model.ConvertCases", "svcase_model (%s)" % case_text)
+        ctx.violation({"family": CONVERT_WHAT + " (snapshot blocks)", "case_index": i, "info": (sinfo[i] if i < len(sinfo) else "")[:6000],
+                       "case": case_text if len(case_text) < 200000 else case_text[:200000],
+                       "model_result": model_text[:1000],
+                       "violated_clause": "proto_snapshot_block_to_token_block / token_block_to_proto_snapshot_block and the conversion model disagree on a snapshot block",
+                       "theorem_or_correspondence": CONVERT_WHAT}, "CVAccept false" in model_text or "CVValue" in model_text)
     cov = {k: v for k, v in summ.items() if k not in ("files", "family")}
     cov["disagreements"] = len(bad)
+    cov["snapshot_disagreements"] = len(sbad)
     cov["kernel_shards"] = len(kv)
     cov["rule"] = CONVERT_RULE
     ctx.coverage["block_conversion_correspondence"] = cov
@@ -243,6 +262,10 @@ class C02(WireFamily):
         if not case or case == "?":
             print("replay: no case recorded; re-run ./check %s" % ctx.pid)
             return 0
+        if "SVCase" in case:
+            r = kernel_eval("Model.ConvertCases", "svcase_model (%s)" % case)
+            print("conversion model on the recorded snapshot block: %s" % r[:600])
+            return 0 if "CVAgree" in r else 1
         if "CVCase" in case:
             r = kernel_eval("Model.ConvertCases", "cvcase_model (%s)" % case)
             print("conversion model on the recorded case: %s" % r[:600])
